@@ -67,6 +67,10 @@ public:
     virtual void on_all_finished(const std::vector<ThreadView> &threads) {}
     // result 1 = deadlock (after on_deadlock), 2 = STOP; the process _exit(0)s right after.
     virtual void on_abort(int result) {}
+    // A second scheduling point right AFTER pthread_create returned (marker "created"): the new thread may then run,
+    // and even finish, before the creator executes its next plain statement. Off for scripted replays (the I-level
+    // models have no such step), on for random exploration.
+    virtual bool yield_after_create() { return false; }
 };
 
 // Runs `body` as managed thread 0 under `ctl`. Returns 0 when every managed thread finished.
